@@ -754,23 +754,23 @@ def run(tier, replay=None):
         return ck.finish()
 
     # ---- model gate of the reference model (invariants + action properties of the Array exotic object)
-    g = vlib.run_tlc(os.path.join(vlib.SPEC, "objects", "MCArraySpec.tla"), "MCArraySpec.cfg", workers=8, timeout=1500)
+    g = vlib.run_tlc(os.path.join(vlib.SPEC, "objects", "MCArraySpec.tla"), "MCArraySpec.cfg", workers=8, timeout=3000)
     vlib.tlc_must_pass(g, "ArraySpec/MCArraySpec.cfg")
     states, transitions = g["distinct"], g["states"]
     cmds = [g["cmd"]]
     if tier == "thorough":
-        g2 = vlib.run_tlc(SPEC, "MCArray_refine.cfg", workers=8, timeout=1500)
+        g2 = vlib.run_tlc(SPEC, "MCArray_refine.cfg", workers=8, timeout=3000)
         vlib.tlc_must_pass(g2, "ArrayStorage => ArraySpec (MCArray_refine.cfg)")
         states += g2["distinct"]; transitions += g2["states"]
         cmds.append(g2["cmd"])
 
     # ---- exhaustive part: every (state, operation) edge; TLC checks commutation + storage invariants and emits
-    cfgs = ["MCArray_quick.cfg"] if tier == "quick" else ["MCArray_thorough.cfg", "MCArray_wide.cfg"]
+    cfgs = ["MCArray_quick.cfg"] if tier == "quick" else ["MCArray_thorough.cfg", "MCArray_wide.cfg", "MCArray_far.cfg"]
     all_nodes = []
     edges_total = 0
     seen_states = set()
     for cfg in cfgs:
-        r, nodes, edges = tlc_nodes(ck, cfg, tier, 1700)
+        r, nodes, edges = tlc_nodes(ck, cfg, tier, 3400)
         states += r["distinct"]; transitions += edges
         cmds.append(r["cmd"])
         all_nodes += nodes
@@ -794,7 +794,7 @@ def run(tier, replay=None):
             for st in nd["steps"]:
                 alphabet.setdefault(json.dumps(st["op"], sort_keys=True), st["op"])
         ops = [alphabet[k] for k in sorted(alphabet)]
-        rs, outs = emit("MCArray_sim.cfg", 4, 1200, simulate=40, depth=16, tseed=vlib.seed())
+        rs, outs = emit("MCArray_sim.cfg", 4, 3000, simulate=40, depth=16, tseed=vlib.seed())
         vlib.tlc_must_pass(rs, "ArrayStorage/-simulate")
         sim = [h for h in outs["REPLAY"]]
         cmds.append(rs["cmd"] + " -depth 16 -seed %d" % vlib.seed())
